@@ -78,6 +78,20 @@ def generate(seed_: int, run: int, reactions: list[str]) -> dict:
     return {"segments": segments}
 
 
+def minimal_reader(cfg: str, disk, files: list[str]) -> dict:
+    """Load the files in a newly exec'ed interpreter that has not imported ampform (thorough tier)."""
+    import os  # noqa: PLC0415
+    import subprocess  # noqa: PLC0415
+
+    env = dict(os.environ, PYTHONHASHSEED=ZygoteSet.hashseed_of(cfg), PYTHONPATH=str(core.VERIF),
+               VERIF_REPO=str(core.REPO), PYTHONDONTWRITEBYTECODE="1")
+    proc = subprocess.run([core.PYTHON, "-m", "simverif.fresh_reader", cfg, *[str(disk / f) for f in files]],
+                          env=env, cwd=str(core.VERIF), capture_output=True, text=True, timeout=900, check=False)
+    if proc.returncode != 0 or not proc.stdout:
+        raise HarnessError(f"minimal reader failed: {proc.stderr[-300:]}")
+    return json.loads(proc.stdout)
+
+
 def execute(zy: ZygoteSet, run: int, workload: dict, tag: str = "") -> dict:
     disk = simroot(f"c15-{run}{tag}")
     violations = []
@@ -132,9 +146,29 @@ def execute(zy: ZygoteSet, run: int, workload: dict, tag: str = "") -> dict:
                     elif got != rec["digest"]:
                         violations.append({"sig": f"expr-{scope}:{rec['cls']}",
                                            "detail": f"{where} ({what}; {rec['name']}): digest differs from the one recorded at dump time"})
+        minimal = 0
+        if workload.get("minimal_reader") and recorded:
+            cfg = workload["minimal_reader"]
+            loaded = minimal_reader(cfg, disk, sorted(recorded))
+            if loaded.pop("__preloaded__", None):
+                raise HarnessError("the minimal reader had ampform/sympy modules loaded before unpickling")
+            for name, got in loaded.items():
+                rec = recorded[name]
+                minimal += 1
+                where = f"minimal newly exec'ed reader (cfg={cfg}) load {name} (written by segment {rec['segment']} cfg={rec['cfg']})"
+                if "load_error" in got:
+                    violations.append({"sig": f"load-raised:{got['load_error'].split(':')[0]}", "detail": f"{where}: {got['load_error']}"})
+                elif "digests" in got:
+                    diff = c06._compare(got["digests"], rec["digests"])  # noqa: SLF001
+                    if diff:
+                        violations.append({"sig": f"cross-process:{diff}", "detail": f"{where}: digest of '{diff}' differs"})
+                else:
+                    value = got["digest_n"] if rec["unfolded"] else got["digest_plain"]
+                    if value != rec["digest"]:
+                        violations.append({"sig": f"expr-cross-process:{rec['cls']}", "detail": f"{where} ({rec['name']}): digest differs"})
     finally:
         shutil.rmtree(disk, ignore_errors=True)
-    return {"segments": seg_out, "violations": violations, "recorded": recorded}
+    return {"segments": seg_out, "violations": violations, "recorded": recorded, "minimal_loads": minimal}
 
 
 def _same_number(a: str, b: str) -> bool:
@@ -166,6 +200,9 @@ class Context:
 
     def run(self, r: int) -> dict:
         workload = generate(self.seed, r, self.info["reactions"])
+        if self.options.get("tier") == "thorough" and r % 4 == 1:
+            wild = core.run_rng(PROP, self.seed, r, "minimal")
+            workload["minimal_reader"] = wild.choice([f"H{wild.randrange(1, 2**31)}", f"HU{wild.randrange(1, 2**31)}", "H0"])
         out = execute(self.zy, r, workload)
         record = {"run": r, "violations": [], "stats": stats_of(workload, out),
                   "workload": workload if r < 2 else None}
@@ -208,6 +245,7 @@ def stats_of(workload: dict, out: dict) -> dict:
                     st["reader_had_history"] += int(had_history)
                 if "fingerprint" in ev:
                     st["fingerprints_compared"] += 1
+    st["minimal_reader_loads"] = out.get("minimal_loads", 0)
     st.update(signature=signature_of(out), expr_names=sorted(names), expr_classes=sorted(classes),
               model_keys=sorted(keys), segments=[s["cfg"] for s in workload["segments"]])
     return st
@@ -283,7 +321,8 @@ def replay(doc: dict, path: str) -> int:
 
 def coverage(records: list[dict], extras: list[dict], options: dict) -> dict:
     tot = {"models_dumped": 0, "exprs_dumped": 0, "loads_same_process": 0, "loads_cross_process": 0,
-           "loads_other_hashseed": 0, "fingerprints_compared": 0, "reader_had_history": 0, "bytes": 0}
+           "loads_other_hashseed": 0, "fingerprints_compared": 0, "reader_had_history": 0, "bytes": 0,
+           "minimal_reader_loads": 0}
     names, classes, keys, sigs, nontrivial = set(), set(), set(), set(), set()
     samples = []
     for rec in records:
